@@ -543,18 +543,116 @@ def _two_pass(traces):
 
 
 def _corrupt_must_be_rejected(trace, mutations):
-    """binding self-test: the recording is accepted, each corrupted copy is rejected (one TLC run)"""
+    """binding self-test: the recording is a behaviour of the contract, no corrupted copy is (one TLC run).
+    returns the corruptions that one of the named deviations would explain (they are reported as deviations then)"""
     batch = [trace]
     for _, mutate in mutations:
         bad = json.loads(json.dumps(trace))
         mutate(bad)
         batch.append(bad)
-    verdicts, _, _ = validate_traces('Trace_MultiEventX', batch, 'Trace_MultiEventX_dev.cfg', timeout=300)
+    verdicts, _, _ = _two_pass(batch)
     if verdicts[0] is not None:
         raise MachineryError('Trace_MultiEventX self-test: the uncorrupted recording is rejected')
+    excused = []
     for j, (what, _) in enumerate(mutations, 1):
         if verdicts[j] is None:
             raise MachineryError(f'Trace_MultiEventX self-test "{what}": the corrupted recording is accepted')
+        if verdicts[j][0] == 'dev':
+            excused.append([what] + verdicts[j][1])
+    return excused
+
+
+# recordings of the scenario server_late and of a queued action, as the pinned code produces them without preemption
+def _b(th, vt, op, e='', a='', to=0, name=''):
+    return {'ev': 'begin', 'op': op, 'e': e, 'a': a, 'to': to, 'name': name, 'th': th, 'vt': vt}
+
+
+def _r(th, vt, op, ires=0, bres=False, sres=()):
+    return {'ev': 'ret', 'op': op, 'exc': '', 'ires': ires, 'bres': bres, 'sres': list(sres), 'th': th, 'vt': vt}
+
+
+SELFTEST_TRACE = [
+    {'ev': 'cfg', 'dto': 30},
+    _b('main', 0, 'new', e='e1', name='module m1'), _r('main', 0, 'new', ires=30),
+    _b('main', 0, 'new', e='e2', to=50, name='module m2'), _r('main', 0, 'new', ires=50),
+    _b('main', 0, 'queue', a='a1'), _r('main', 0, 'queue'),
+    _b('main', 0, 'wait', to=30),
+    _b('a', 1, 'set', e='e1'), _r('a', 1, 'set'),
+    _r('main', 30, 'wait'),
+    _b('main', 30, 'wfor'), _r('main', 30, 'wfor', sres=['module m2']),
+    _b('main', 30, 'wait', to=0), _r('main', 30, 'wait'),
+    _b('main', 30, 'deadline'), _r('main', 30, 'deadline', ires=50),
+    _b('main', 30, 'wait', to=INF),
+    _b('b', 40, 'set', e='e2'), {'ev': 'act', 'a': 'a1', 'raises': False, 'th': 'b', 'vt': 40}, _r('b', 40, 'set'),
+    _r('main', 40, 'wait', bres=True),
+    {'ev': 'end', 'vt': 40}]
+
+
+def _first(tr, **kw):
+    return next(i for i, e in enumerate(tr) if all(e.get(k) == v for k, v in kw.items()))
+
+
+def _late(tr):              # the time-out wait returns one tick late (all later events shifted)
+    for e in tr[_first(tr, ev='ret', op='wait'):]:
+        e['vt'] += 1
+
+
+def _early(tr):             # ... one tick early
+    j = _first(tr, ev='ret', op='wait')
+    for e in tr[j - 2:j + 1]:
+        e['vt'] = 29
+
+
+def _untrue(tr):            # True although a sub-event is outstanding
+    tr[_first(tr, ev='ret', op='wait')]['bres'] = True
+
+
+def _names(tr):             # waiting_for() misses the outstanding module
+    tr[_first(tr, ev='ret', op='wfor')]['sres'] = []
+
+
+def _dline(tr):             # deadline() reports another deadline
+    tr[_first(tr, ev='ret', op='deadline')]['ires'] += 1
+
+
+def _twice(tr):             # the queued action runs twice
+    j = _first(tr, ev='act')
+    tr.insert(j, dict(tr[j]))
+
+
+def _never(tr):             # ... never
+    del tr[_first(tr, ev='act')]
+
+
+def _tooearly(tr):          # ... while a sub-event is outstanding (by the thread that set the other one)
+    j = _first(tr, ev='act')
+    e = tr.pop(j)
+    e.update(th='a', vt=1)
+    tr.insert(_first(tr, ev='ret', op='set'), e)
+
+
+def _lostwake(tr):          # the last waiter sleeps on although everything is set: it comes back later
+    for e in tr[_first(tr, ev='ret', op='wait', bres=True):]:
+        e['vt'] += 3
+
+
+def _newdl(tr):             # the default time-out is not applied to the first sub-event
+    tr[_first(tr, ev='ret', op='new')]['ires'] = INF
+
+
+def _overstay(tr):          # the last wait is given a limit (45) and still returns True at 40 + 10
+    tr[_first(tr, ev='begin', op='wait', to=INF)]['to'] = 15
+    for e in tr[_first(tr, ev='begin', op='set', e='e2'):]:
+        e['vt'] += 10
+
+
+SELFTEST_MUTATIONS = (('late', _late), ('early', _early), ('untrue', _untrue), ('names', _names), ('deadline', _dline),
+                      ('twice', _twice), ('never', _never), ('tooearly', _tooearly), ('lostwake', _lostwake),
+                      ('newdl', _newdl), ('overstay', _overstay))
+
+
+def _selftest():
+    return _corrupt_must_be_rejected(SELFTEST_TRACE, SELFTEST_MUTATIONS)
 
 
 # ------------------------------------------------------------------ design level
@@ -705,7 +803,6 @@ def run(chk):
     count = {}
     reproduced = {}
     corpus_hit = {}
-    clean = None
     seen = set()
     for k, v in zip(keys, verdicts):
         for i in keys[k]:
@@ -721,8 +818,7 @@ def run(chk):
                 chk.violation({'module': 'MultiEventX', 'kind': 'crash', 'exc': sorted(r['crashes'].values())[0][:60]},
                               dict(detail, crashes=r['crashes']))
             elif v is None:
-                if clean is None and org['scenario'] == 'server_late':
-                    clean = r['trace']
+                pass
             elif v[0] == 'dev':
                 if org.get('corpus') in v[1]:
                     corpus_hit[org['corpus']] = True
@@ -746,33 +842,8 @@ def run(chk):
     stage['traces'] = round(_t.time() - t0, 1)
 
     # ---- 4 binding self-test: corrupted recordings must be rejected (also with every deviation allowed)
-    if clean is None:
-        raise MachineryError('no clean execution of the scenario server_late to run the self-test on')
-
-    def late(tr):           # the time-out wait returns one tick late (all later events shifted)
-        j = next(i for i, e in enumerate(tr) if e['ev'] == 'ret' and e['op'] == 'wait' and not e['bres'])
-        for e in tr[j:]:
-            e['vt'] += 1
-
-    def early(tr):          # ... one tick early
-        j = next(i for i, e in enumerate(tr) if e['ev'] == 'ret' and e['op'] == 'wait' and not e['bres'])
-        tr[j]['vt'] -= 1
-        k = j - 1
-        while tr[k]['vt'] > tr[j]['vt']:
-            tr[k]['vt'] = tr[j]['vt']
-            k -= 1
-
-    def untrue(tr):         # True although a sub-event is outstanding
-        next(e for e in tr if e['ev'] == 'ret' and e['op'] == 'wait' and not e['bres'])['bres'] = True
-
-    def names(tr):          # waiting_for() misses the outstanding module
-        next(e for e in tr if e['ev'] == 'ret' and e['op'] == 'wfor')['sres'] = []
-
-    def dline(tr):          # deadline() reports another deadline
-        next(e for e in tr if e['ev'] == 'ret' and e['op'] == 'deadline')['ires'] += 1
-
-    _corrupt_must_be_rejected(clean, (('late', late), ('early', early), ('untrue', untrue), ('names', names), ('deadline', dline)))
-    chk.notes['binding_selftest'] = 5
+    chk.notes['binding_selftest_explained_by_a_deviation'] = _selftest()
+    chk.notes['binding_selftest'] = len(SELFTEST_MUTATIONS)
     stage['selftest'] = round(_t.time() - t0, 1)
     chk.notes['wall_until_end_of_stage'] = stage
     chk.exhaustive = False
